@@ -9,12 +9,18 @@ package checks
 
 import (
 	"bytes"
+	"crypto/sha256"
 	"errors"
 	"fmt"
 	"io"
 	"os"
 	"sync/atomic"
 	"time"
+
+	"github.com/consensys/gnark-crypto/ecc"
+	"github.com/consensys/gnark/backend/groth16"
+	"github.com/consensys/gnark/frontend"
+	"github.com/consensys/gnark/frontend/cs/r1cs"
 
 	"verif/harness/ev"
 	"verif/harness/par"
@@ -181,4 +187,56 @@ func c11ReplayFault(c *ev.Ctx, f *c11Fault) {
 	if msg != "" {
 		c.Violation("write-fault|"+f.System+"|"+f.Format+"|"+f.Kind, msg, f)
 	}
+}
+
+type dummyCircuit2 struct {
+	X    frontend.Variable `gnark:",public"`
+	Y, Z frontend.Variable
+}
+
+func (c *dummyCircuit2) Define(api frontend.API) error {
+	a := api.Mul(c.Y, c.Z)
+	b := api.Mul(a, a)
+	api.AssertIsEqual(api.Add(api.Mul(b, c.Y), c.Z), c.X)
+	return nil
+}
+
+// c11Pairs: two goroutines write two DIFFERENT proving systems at the same time (both formats): each output
+// must be byte-identical to what the same call writes alone (and therefore reload to its own system).
+func c11Pairs() []pairScenario {
+	if _, err := c15Bytes("small", "raw"); err != nil {
+		return nil
+	}
+	ccs, err := frontend.Compile(ecc.BN254.ScalarField(), r1cs.NewBuilder, &dummyCircuit2{})
+	if err != nil {
+		return nil
+	}
+	pk, vk, err := groth16.Setup(ccs)
+	if err != nil {
+		return nil
+	}
+	other := &prover.ProvingSystem{TreeDepth: 7, BatchSize: 3, ProvingKey: pk, VerifyingKey: vk, ConstraintSystem: ccs}
+	sys := []*prover.ProvingSystem{c15Small, other}
+	mk := func(name string, raw [2]bool) pairScenario {
+		return pairScenario{Name: name, F: func(i int) (out string) {
+			defer func() {
+				if r := recover(); r != nil {
+					out = fmt.Sprintf("panic: %v", r)
+				}
+			}()
+			var buf bytes.Buffer
+			var err error
+			if raw[i] {
+				_, err = sys[i].WriteRawTo(&buf)
+			} else {
+				_, err = sys[i].WriteTo(&buf)
+			}
+			if err != nil {
+				return "error: " + err.Error()
+			}
+			h := sha256.Sum256(buf.Bytes())
+			return fmt.Sprintf("%d bytes sha256 %x", buf.Len(), h[:8])
+		}}
+	}
+	return []pairScenario{mk("ProvingSystem.WriteTo of two different systems", [2]bool{false, false}), mk("WriteRawTo next to WriteTo of two different systems", [2]bool{true, false})}
 }
